@@ -1,4 +1,4 @@
 SPECIFICATION Spec
-CONSTANTS K = 2 CloseGuardOwn = FALSE CancelWakesAccept = FALSE ShutdownClaims = FALSE TrackChecksDown = FALSE UnmarkAfterWrite = TRUE StartupSafe = TRUE ListenerMayFail = FALSE FailureDistinct = TRUE Emit = TRUE
+CONSTANTS K = 2 CloseGuardOwn = FALSE CancelWakesAccept = FALSE ShutdownClaims = FALSE TrackChecksDown = FALSE UnmarkAfterWrite = TRUE StartupSafe = TRUE ListenerMayFail = FALSE FailureDistinct = TRUE TimeoutIsError = TRUE RetryWaits = TRUE Emit = TRUE
 INVARIANT EmitDone
 CHECK_DEADLOCK FALSE
